@@ -474,14 +474,31 @@ def basis_aliasing(idx, rep, loop, construct):
     if cert.get("ok") is True:
         slots = lp.state_slots(body, sp)
         counters = {n for n, i in slots.items() if i == cert["counter_slot"]}
+        def mark(fnode, counters_):
+            for c in df.calls(fnode, into_nested=False):
+                if isinstance(c.func, ast.Attribute) and c.func.attr == "for_loop" and df.is_xnp_call(c):
+                    b = df.bind_call(c, ["lower", "upper", "body_fun", "init_val"])
+                    lo, up = b.get("lower"), b.get("upper")
+                    if isinstance(lo, ast.Constant) and lo.value == 0 and isinstance(up, ast.BinOp) and isinstance(up.op, ast.Add):
+                        for x, k in ((up.left, up.right), (up.right, up.left)):
+                            if isinstance(x, ast.Name) and x.id in counters_ and isinstance(k, ast.Constant) and isinstance(k.value, int) and k.value >= 1:
+                                own.nonempty_loops.add(id(c))
+        mark(body.node, counters)
+        # the sweep may live in a helper that receives the counter: `project(Q, w, idx, ..)` with `for_loop(0, idx + 1, ..)` inside; the
+        # helper's loop is non-empty for this caller, which must be its only one for the fact to be used in the helper's summary
         for c in df.calls(body.node, into_nested=False):
-            if isinstance(c.func, ast.Attribute) and c.func.attr == "for_loop" and df.is_xnp_call(c):
-                b = df.bind_call(c, ["lower", "upper", "body_fun", "init_val"])
-                lo, up = b.get("lower"), b.get("upper")
-                if isinstance(lo, ast.Constant) and lo.value == 0 and isinstance(up, ast.BinOp) and isinstance(up.op, ast.Add):
-                    for x, k in ((up.left, up.right), (up.right, up.left)):
-                        if isinstance(x, ast.Name) and x.id in counters and isinstance(k, ast.Constant) and isinstance(k.value, int) and k.value >= 1:
-                            own.nonempty_loops.add(id(c))
+            r = idx.resolve_expr(body.module, c.func, body)
+            if r is None or r.kind != "funcs" or getattr(r.val[-1], "rule", None) is not None:
+                continue
+            callee = r.val[-1]
+            sites = [x for f_ in idx.funcs.values() if f_.module is callee.module or f_.module is body.module for x in df.calls(f_.node, into_nested=False)
+                     if isinstance(x.func, ast.Name) and x.func.id == callee.short]
+            if len(sites) != 1:
+                continue
+            bound = df.bind_call(c, callee.params)
+            cnames = {p_ for p_, a_ in bound.items() if isinstance(a_, ast.Name) and a_.id in counters}
+            if cnames:
+                mark(callee.node, cnames)
     res = own.analyse(body)
     bad = [s for s in res.sites if ("fresh", ) in s.origins and ("param", sp) in s.origins and not s.kind.startswith("update_array")]
     n_prod = sum(1 for n in df.body_nodes(body.node) if isinstance(n, ast.BinOp) and isinstance(n.op, ast.MatMult))
@@ -516,6 +533,6 @@ def clip_certificate(fi, a):
                 later = [n for n in df.body_nodes(fi.node) if isinstance(n, ast.Name) and isinstance(n.ctx, ast.Load) and n.id == raw and n is not x
                          and getattr(n, "lineno", 0) > st.lineno]
                 if tgt != raw and later:
-                    return False, f"{ast.unparse(st)} but `{raw}` is still read un-clipped at line {later[0].lineno}"
+                    return False, f"{ast.unparse(st)} but `{raw}` is still read un-clipped at line {getattr(later[0], '_src_line', later[0].lineno)}"
                 return True, ast.unparse(st.value)
     return False, "-"
